@@ -31,7 +31,7 @@ from gram.driver import add_stats, run_items
 from gram.family import program_set, show
 from gram.pipeline import parse_and_build, static_compare
 from symx import values as sv
-from symx.core import Ctx, cur
+from symx.core import Ctx, Inconclusive, ReplayDiverged, cur
 from symx.values import SInt
 
 T = fparser.Type
@@ -253,6 +253,102 @@ def lagslead_case(item) -> Dict[str, Any]:
             'assumptions': ctx.assumptions, 'exhausted': ctx.exhausted}
 
 
+# -- 2b. the same symbols built repeatedly with other options (nothing remembered from an earlier build) --------------
+def rebuild_case(item) -> Dict[str, Any]:
+    mode, hints = item
+    ctx = Ctx(budget_s=120)
+    A1, A2 = z3.Int('opt_first'), z3.Int('opt_second')
+    ctx.assume(z3.And(A1 >= 0, A1 <= 4, A2 >= 0, A2 <= 4), 'option values of the two builds in 0..4')
+    bad: List[Any] = []
+    key = {'min_lags': 'min_lags', 'min_leads': 'min_leads', 'lags': 'lags', 'leads': 'leads'}[mode]
+
+    def symbols():
+        # deepest lag 2, furthest lead 1 (value-equal symbols each time)
+        return [fparser.Symbol('Y', T.ENDOGENOUS, -2, 0, 'Y[t] = X[t-2] + Z[t+1]', 'self._Y[t] = self._X[t-2] + self._Z[t+1]'),
+                fparser.Symbol('X', T.EXOGENOUS, -2, 0, None, None), fparser.Symbol('Z', T.EXOGENOUS, 0, 1, None, None)]
+
+    def want(v):
+        lags, leads = 2, 1
+        if mode == 'min_lags':
+            lags = _zmax(z3.IntVal(2), v)
+        elif mode == 'min_leads':
+            leads = _zmax(z3.IntVal(1), v)
+        elif mode == 'lags':
+            lags = v
+        else:
+            leads = v
+        return lags, leads
+
+    def read(text, start):
+        got = {}
+        for name in ('LAGS', 'LEADS'):
+            tok = re.search(rf'^\s*{name}(?:: int)? = (.+)$', text, re.M).group(1).strip()
+            mt = re.fullmatch(r'__SINT_(\d+)__', tok)
+            got[name] = sv.FORMAT_TOKENS[int(mt.group(1))] if mt else z3.IntVal(int(tok))
+        return got
+
+    def fn():
+        out = []
+        start = len(sv.FORMAT_TOKENS)
+        c = cur()
+        for which, a in (('first', A1), ('second', A2), ('third (defaults)', None)):
+            kw = {'with_type_hints': hints}
+            if a is not None:
+                kw[key] = SInt(a)
+            text = fsic.build_model_definition(symbols(), **kw)
+            got = read(text, start)
+            wl, wd = want(a) if a is not None else (z3.IntVal(2), z3.IntVal(1))
+            if c._check(z3.Or(got['LAGS'] != wl, got['LEADS'] != wd)) == 'sat':
+                out.append(f'{which} build with {key}: LAGS/LEADS are not what these options give')
+        del sv.FORMAT_TOKENS[start:]
+        return out
+
+    def concrete(v1, v2, what):
+            res = []
+            for a in (v1, v2, None):
+                kw = {'with_type_hints': hints}
+                if a is not None:
+                    kw[key] = a
+                text = fsic.build_model_definition(symbols(), **kw)
+                gl = re.search(r'^\s*LAGS(?:: int)? = (.+)$', text, re.M).group(1).strip()
+                gd = re.search(r'^\s*LEADS(?:: int)? = (.+)$', text, re.M).group(1).strip()
+                # (text left over from an earlier, symbolic build is itself a stale result: it stays a string and differs)
+                gl, gd = (int(gl) if gl.lstrip('-').isdigit() else gl), (int(gd) if gd.lstrip('-').isdigit() else gd)
+                wl, wd = 2, 1
+                if a is not None:
+                    wl, wd = {'min_lags': (max(2, a), 1), 'min_leads': (2, max(1, a)), 'lags': (a, 1), 'leads': (2, a)}[mode]
+                res.append(((gl, gd), (wl, wd)))
+            bad.append({'what': what, 'values': {'mode': mode, 'first': v1, 'second': v2, 'builds (got, want)': str(res)},
+                        'replayed': any(g != w for g, w in res)})
+
+    paths = 0
+    diverged = False
+    try:
+        for path in ctx.explore(fn):
+            paths += 1
+            if path.outcome[0] == 'exc':
+                raise RuntimeError(repr(path.outcome[1]))
+            if path.outcome[1] and len(bad) < 3:
+                m = path.model()
+                v1 = m.eval(A1, model_completion=True).as_long()
+                v2 = m.eval(A2, model_completion=True).as_long()
+                if v1 == v2:   # a stale result is only visible when the options differ
+                    m2 = path.model(A1 != A2)
+                    if m2 is not None:
+                        v1, v2 = m2.eval(A1, model_completion=True).as_long(), m2.eval(A2, model_completion=True).as_long()
+                concrete(v1, v2, '; '.join(path.outcome[1]))
+    except ReplayDiverged as e:
+        # the builder did not behave as a function of (symbols, options) when re-executed: it remembers earlier builds.
+        # The solver cannot enumerate paths of such code; the concrete sequences below decide (and replay) instead.
+        diverged = True
+        for v1, v2 in ((0, 4), (4, 0), (1, 3), (3, 3)):
+            concrete(v1, v2, f'builder is not a function of its arguments ({e}); concrete sequence of builds')
+        if not any(b['replayed'] for b in bad):
+            raise Inconclusive(f're-execution diverged ({e}) but no concrete build sequence shows a wrong result')
+    return {'kind': 'rebuild', 'item': str(item), 'paths': max(paths, 1), 'stats': ctx.stats.as_dict(), 'bad': bad,
+            'assumptions': ctx.assumptions, 'exhausted': ctx.exhausted or diverged}
+
+
 # -- 3. default range ------------------------------------------------------------------------------------
 def range_case(item) -> Dict[str, Any]:
     L, origin, twin = item
@@ -362,7 +458,7 @@ def named_case(item) -> Dict[str, Any]:
 def dispatch(item):
     kind, payload = item
     return {'merge': merge_case, 'lagsleads': lagslead_case, 'range': range_case, 'program': program_case,
-            'named': named_case}[kind](payload)
+            'named': named_case, 'rebuild': rebuild_case}[kind](payload)
 
 
 def main() -> int:
@@ -384,6 +480,9 @@ def main() -> int:
             for dm in ('none', 'given', 'min'):
                 for hints in (True, False):
                     items.append(('lagsleads', (n_sym, lm, dm, hints, None)))
+    for mode in ('min_lags', 'min_leads', 'lags', 'leads'):
+        for hints in (True, False):
+            items.append(('rebuild', (mode, hints)))
     for L in range(0, 5 if tier == 'quick' else 12):
         for origin in (0, 1990):
             items.append(('range', (L, origin, None)))
@@ -398,9 +497,10 @@ def main() -> int:
         n_prog += 1
     items += [('named', c) for c in NAMED_PERIOD_CASES]
     results = run_items(dispatch, items)
-    twins = [dispatch(('merge', (T.EXOGENOUS, T.EXOGENOUS, 'mention', (None, None), 'lags_off'))),
-             dispatch(('lagsleads', (2, 'min', 'none', True, 'lags_off'))),
-             dispatch(('range', (3, 0, 'end_off')))]
+    gd = vlib.guarded(dispatch)
+    twins = [gd(('merge', (T.EXOGENOUS, T.EXOGENOUS, 'mention', (None, None), 'lags_off'))),
+             gd(('lagsleads', (2, 'min', 'none', True, 'lags_off'))),
+             gd(('range', (3, 0, 'end_off')))]
 
     tot: Dict[str, Any] = {}
     by_kind: Dict[str, int] = {}
